@@ -29,6 +29,7 @@ META = {
 }
 
 NASTY = 'a"b&<c>]]>\''
+NASTY2 = 'tail]]>'  # no & and no <, yet not allowed raw in element content
 
 
 # --------------------------------------------------------------------------------------------
@@ -110,7 +111,7 @@ def _scan(s):
                 i += 1
         elif isinstance(p, Atom) and hasattr(p, "escaped"):
             if state == "text":
-                out.append((p, "text", frozenset("&<")))
+                out.append((p, "text", frozenset("&<>")))  # '>' too: the sequence ']]>' is not allowed in content
             elif state == "attr":
                 out.append((p, "attr" + quote, frozenset("&<") | {quote}))
             else:
@@ -144,9 +145,13 @@ class _AnyElem:
 
 def _check_sink(c, label, s):
     uses = _scan(s)
+    from pyvc.engine import atom_has_char
+
     for atom, ctx, need in uses:
         missing = sorted(need - atom.escaped)
-        c.ensures("%s[%s in %s]" % (label, atom.origin, ctx.replace('"', "dq").replace("'", "sq")), not missing,
+        # a character the code has tested to be absent (path condition) needs no escaping
+        claim = z3.And(*[z3.Not(atom_has_char(atom, m)) for m in missing]) if missing else True
+        c.ensures("%s[%s in %s]" % (label, atom.origin, ctx.replace('"', "dq").replace("'", "sq")), claim,
                   why="caller string %s reaches %s context without escaping %s" % (atom.origin, ctx, " ".join(repr(m) for m in missing)),
                   origin=atom.origin, context=ctx)
     return uses
@@ -203,13 +208,16 @@ def _native_probe(which):
             from pptx.chart.data import CategoryChartData
             from pptx.enum.chart import XL_CHART_TYPE
 
-            cd = CategoryChartData()
-            cd.categories = [NASTY, "b"]
-            cd.add_series(NASTY, (1, 2))
-            gf = slide.shapes.add_chart(XL_CHART_TYPE.BAR_CLUSTERED, 0, 0, 10, 10, cd)
-            plot = gf.chart.plots[0]
-            ok = list(plot.categories)[0] == NASTY and plot.series[0].name == NASTY
-            return (not ok, "series name %r, category %r" % (plot.series[0].name, list(plot.categories)[0]))
+            for nasty in (NASTY, NASTY2, "a > b", "]]>"):
+                cd = CategoryChartData()
+                cd.categories = [nasty, "b"]
+                cd.add_series(nasty, (1, 2))
+                gf = slide.shapes.add_chart(XL_CHART_TYPE.BAR_CLUSTERED, 0, 0, 10, 10, cd)
+                plot = gf.chart.plots[0]
+                ok = list(plot.categories)[0] == nasty and plot.series[0].name == nasty
+                if not ok:
+                    return (True, "series name %r, category %r (given %r)" % (plot.series[0].name, list(plot.categories)[0], nasty))
+            return (False, "series names and categories with markup characters read back verbatim")
         if which == "ole-progid":
             blob = io.BytesIO(b"hello")
             gf = slide.shapes.add_ole_object(blob, 'My"Prog&Id', Emu(0), Emu(0), Emu(10), Emu(10))
